@@ -29,14 +29,17 @@ vars == <<reg, buf, hist, start, w, rep>>
 R == 2
 Nil == [k |-> "nil"]
 
+\* a nested object with a multi-byte key and a null member, followed by a sibling: rebuilding it (strip_nulls,
+\* deletion below the top level) must report its exact length to the parent
+NestedE == Arr(<<Obj(<< <<ka, u1>>, <<kE, Null>> >>), sab>>)
 Starts ==
   CASE StartSet = "small" -> {Null, u1, sab, Arr(<<>>), Obj(<<>>), Arr(<<u1, sab>>), Obj(<< <<ka, Null>>, <<kb, u256>> >>),
-                              Arr(<<Arr(<<u1>>), Obj(<< <<ka, u1>> >>), Null>>)}
-    [] StartSet = "tiny" -> {Null, Arr(<<u1, sab>>), Obj(<< <<ka, Null>>, <<kb, u256>> >>)}
+                              Arr(<<Arr(<<u1>>), Obj(<< <<ka, u1>> >>), Null>>), NestedE}
+    [] StartSet = "tiny" -> {Null, Arr(<<u1, sab>>), Obj(<< <<ka, Null>>, <<kb, u256>> >>), NestedE}
     [] StartSet = "text2" -> {Arr(<<f1, sab>>), Obj(<< <<ka, Null>>, <<kb, u256>> >>), Obj(<< <<ka, u1>> >>)}
     [] OTHER -> RepL1 \cup AtomsSmall
                 \cup {Arr(<<u256, Null, f15>>), Arr(<<Arr(<<u1, sab>>), Obj(<< <<ka, Null>> >>)>>), Arr(<<sa, sab, sa>>),
-                      Obj(<< <<kEmpty, Null>> >>), Obj(<< <<kEmpty, sEmpty>>, <<ka, Null>> >>),
+                      Obj(<< <<kEmpty, Null>> >>), Obj(<< <<kEmpty, sEmpty>>, <<ka, Null>> >>), NestedE, Obj(<< <<ka, Obj(<< <<kE, Null>>, <<kEb, True>> >>)>>, <<kb, sab>> >>),
                       Obj(<< <<kB, u1>>, <<ka, Arr(<<sE, f15>>)>> >>), Obj(<< <<kE, Obj(<< <<kab, Null>>, <<kb, sQuote>> >>)>> >>),
                       Arr(<<Obj(<< <<ka, u1>>, <<kb, sab>> >>), Obj(<< <<ka, u2>>, <<kb, Null>> >>), Obj(<< <<ka, f15>> >>)>>),
                       Arr(<<u1, i1, f1, u1>>), Obj(<< <<ka, Obj(<< <<ka, Obj(<< <<ka, Null>>, <<kb, u1>> >>)>> >>)>> >>)}
